@@ -36,7 +36,8 @@ func (fr *Frame) nativeCall(st *State, fn *ssa.Function, c *ssa.CallCommon, args
 				r.assumed["native:"+name] = true
 				errT := types.Universe.Lookup("error").Type()
 				e := fr.tvOf(st, args[0], errT)
-				okv := r.declare("asok", SBool)
+				// the answer is a function of the error value and the target type (two calls on the same error agree)
+				okv := app("errAs", e.S, fmt.Sprintf("%d", r.eng.typeID(pt.Elem())))
 				r.assumeGlobal(implies(eq(app("i_tag", e.S), "0"), not(okv)))
 				cell := fr.tv(st, mi.X)
 				old := r.loadAt(st, cell.S, pt.Elem())
